@@ -1061,9 +1061,11 @@ class Interp:
         return r.value
       return None
     if isinstance(callee, BoundObj):
+      static = any(isinstance(d, ast.Name) and d.id == 'staticmethod' for d in callee.func.node.decorator_list)
+      recv = [] if static else ([Ref('class', callee.func.cls.fq)] if callee.func.is_classmethod and callee.func.cls is not None else [callee.obj])
       if callee.func.fq in self.hooks:
-        return self.hooks[callee.func.fq]([callee.obj] + args, kwargs)
-      return self.call_function(callee.func, [callee.obj] + args, kwargs, depth + 1)
+        return self.hooks[callee.func.fq](recv + args, kwargs)
+      return self.call_function(callee.func, recv + args, kwargs, depth + 1)
     if isinstance(callee, Ref) and callee.kind == 'func':
       if callee.fq in self.hooks:
         return self.hooks[callee.fq](args, kwargs)
@@ -1223,6 +1225,10 @@ class Interp:
         return (min if b == 'min' else max)(keyed, key=lambda kv: kv[0])[1]
       if b in ('min', 'max') and len(args) == 1 and isinstance(args[0], (list, tuple)) and not args[0] and 'default' not in kwargs:
         raise _Raise('ValueError', f'{b}() arg is an empty sequence', node)
+      if b == 'abs' and len(args) == 1 and isinstance(args[0], NdArr):
+        return args[0].map(abs)
+      if b == 'float' and len(args) == 1 and type(args[0]).__name__ == 'Fraction':
+        return args[0]   # exact numbers stay exact
       if b in ('min', 'max', 'sum', 'abs', 'int', 'float', 'str', 'bool', 'sorted', 'any', 'all', 'round'):
         return {'min': min, 'max': max, 'sum': sum, 'abs': abs, 'int': int,
                 'float': float, 'str': str, 'bool': bool, 'sorted': sorted,
@@ -1242,6 +1248,8 @@ class Interp:
         seq = list(args[0])
         if seq:
           return seq[0]
+        if len(args) > 1:
+          return args[1]   # next(iterator, default)
         raise _Raise('StopIteration', '', node)
       if b in ('print',):
         return None
